@@ -86,7 +86,7 @@ Fixpoint mhist_cmp (p : params) (s : mstate) (l : list (henv * mstep * mobs)) : 
   match l with
   | [] => true
   | (e, x, o) :: r =>
-      let res := mhist_step true true p e s x in
+      let res := mhist_step true true true p e s x in
       mstep_agrees res o && match snd res with None => true | Some (s', _) => mhist_cmp p s' r end
   end.
 
